@@ -101,26 +101,28 @@ Theorem hashinfo_group_of_file :
 Proof. exact (@groups_from_nth). Qed.
 Print Assumptions hashinfo_group_of_file.
 
-(** Every pipe reader of the fan-out is served the upstream bytes in order, with single empty
-    reads at most. *)
+(** Every pipe reader of the fan-out is served the upstream bytes in order; its runs of empty
+    reads are at most one longer than the upstream reader's. *)
 Theorem fanout_preserves_stream :
   forall maxE : nat, 1 <= maxE -> forall slice : nat, 0 < slice ->
   forall (chunks : list (list N)) (eofWithLast : bool),
-    Forall (fun c : list N => c <> []) chunks ->
+    runs_ok (maxE - 1) (maxE - 1) chunks ->
     exists ws, fan_writes slice chunks eofWithLast = (ws, true) /\ concat ws = concat chunks /\ runs_ok maxE maxE ws.
-Proof. exact (@fan_writes_spec). Qed.
+Proof. exact (@fan_writes_spec_runs). Qed.
 Print Assumptions fanout_preserves_stream.
 
 (** Both producers: the signature written while diffing (the source read once, in the pool's
     chunking [srcs], through the fan-out) and read back equals what the stand-alone signer
     computes from the same contents read in any other chunking [srcs'] - and both are the
-    reference signature. *)
+    reference signature.  The chunkings may contain empty reads: runs of at most [maxE] of
+    them for the stand-alone signer, [maxE - 1] for the fan-out (which adds one of its own at
+    the end of a file); chunkings without empty reads qualify ([chunkings_without_empty_reads]). *)
 Theorem both_producers_agree :
   forall (H : Type) (bs : N), (0 < bs)%N ->
   forall (weak : list N -> N) (strong : list N -> H) (maxE : nat), 1 <= maxE ->
   forall slice : nat, 0 < slice ->
   forall srcs srcs' : list (list (list N) * bool),
-    Forall src_nonempty srcs -> Forall (src_ok maxE) srcs' ->
+    Forall (src_fan_ok maxE) srcs -> Forall (src_ok maxE) srcs' ->
     map src_content srcs = map src_content srcs' ->
     exists stream : list (N * H),
       diff_time_signature bs weak strong maxE slice srcs = Some stream /\
@@ -130,6 +132,12 @@ Theorem both_producers_agree :
       sign_all bs weak strong (map src_content srcs).
 Proof. exact (@both_producers_agree_lemma). Qed.
 Print Assumptions both_producers_agree.
+
+Theorem chunkings_without_empty_reads :
+  forall (maxE : nat) (src : list (list N) * bool),
+    src_nonempty src -> src_fan_ok maxE src /\ src_ok maxE src.
+Proof. exact (fun maxE src Hne => conj (src_nonempty_fan_ok maxE src Hne) (runs_ok_nonempty maxE maxE (fst src) Hne)). Qed.
+Print Assumptions chunkings_without_empty_reads.
 
 (** Validating an undamaged copy against the signature read back from the build's own
     signature file, whatever the slicing of each file's bytes into writes: ComputeHashInfo
